@@ -14,6 +14,7 @@ package mon
 import (
 	"bufio"
 	"bytes"
+	"context"
 	"encoding/json"
 	"fmt"
 	"net"
@@ -220,6 +221,24 @@ func c16RunFunc(b core.Batch, r *core.Recorder) {
 	// ---- configuration files and update documents
 	os.MkdirAll("var", 0o755)
 	def, _ := json.MarshalIndent(config.NewDefault(), "", " ")
+	// a live configuration with a running cache + janitor: update documents are also applied to it, so that
+	// a value that only blows up inside a listening component (in another goroutine: a process abort, which
+	// the driver reports) is reached too
+	liveCtx, liveCancel := context.WithCancel(context.Background())
+	defer liveCancel()
+	// (built with the default values, so that the rig sets no override: an override would mask API updates;
+	// renewed every few documents, so that one accepted-but-poisonous document cannot shadow the following ones)
+	var liveCfg *config.Config
+	var liveCache rig.VCache
+	renewLive := func() {
+		if liveCache != nil {
+			liveCache.Destroy()
+		}
+		liveCfg = config.NewDefault()
+		liveCache, _ = rig.NewCache(liveCtx, rig.CacheOpts{Backend: "memory", Shards: 4, Cfg: liveCfg, Max: liveCfg.Cache.MaxCacheSize.Read().Bytes(), Interval: liveCfg.Cache.CleanupInterval.Read().Cast()})
+	}
+	renewLive()
+	defer func() { liveCache.Destroy() }()
 	jsonVals := []string{"null", "0", "-1", "1e400", "true", "\"\"", "\"x\"", "[]", "{}", "\"0B\"", "\"0s\"", "\"-1h\"", "99999999999999999999", "\"99999999999999999999T\"", "{\"a\":{\"b\":null}}"}
 	for i := 0; i < min(n/10, 2000); i++ {
 		doc := string(def)
@@ -251,6 +270,12 @@ func c16RunFunc(b core.Batch, r *core.Recorder) {
 		if json.Unmarshal([]byte(doc), &upd) == nil {
 			cfg := config.NewDefault()
 			c16guard(r, "config.UpdatePartialFromConfig", "update-document", doc, func() { config.UpdatePartialFromConfig(cfg, upd) })
+			if i%5 == 0 {
+				renewLive()
+			}
+			r.Case(fmt.Sprintf("live-update-%d", i), core.Trunc(doc, 1500)) // logged first: a crash in a listener goroutine is attributed to it
+			c16guard(r, "config.UpdatePartialFromConfig(live)", "update-document", doc, func() { config.UpdatePartialFromConfig(liveCfg, upd) })
+			time.Sleep(400 * time.Microsecond) // let the asynchronous listeners and the janitor act on this document before the next one
 		}
 		r.Nontrivial("cfg", doc)
 	}
